@@ -187,8 +187,9 @@ fn normalise(m: &Msg) -> Msg {
     let verbose = m.ext.map(|e| e.2 & 1 == 1).unwrap_or(false);
     let (be, args) = expand(&m.body);
     if !verbose {
-        // the plugin never looks at the arguments of a non-verbose message
-        return Msg { body: Body::Args { be, args: vec![] }, ..m.clone() };
+        // the plugin (and the model) never look at the arguments of a non-verbose message: keep the
+        // transfer-shaped payload in the real message so that a lost `is_verbose` test would show
+        return m.clone();
     }
     let dec = decoded_args(m);
     let same = dec.len() == args.len() && dec.iter().zip(args.iter()).all(|(d, a)| d.0 == a.0 && d.1 == be && d.2 == a.1);
@@ -1239,7 +1240,7 @@ fn main() {
     let (n_scen, n_mal, sweep_n) = match a.tier.as_str() {
         "quick" => (800, 350, 4),
         "search" => (3000, 1000, 3),
-        _ => (40000, 15000, 5),
+        _ => (25000, 10000, 5),
     };
     let (n_scen, n_mal) = match a.count {
         Some(c) => (c * 2 / 3, c / 3),
